@@ -281,6 +281,13 @@ def err_class(e):
 KEY_SKIP = frozenset(["run"])
 
 
+class Log(dict):
+    """harness-side log: shared between snapshots, never fingerprinted"""
+
+    def __deepcopy__(self, memo):
+        return self
+
+
 class Shared(dict):
     """immutable configuration shared between snapshots (not deep-copied)"""
 
@@ -367,6 +374,7 @@ class Run:
         self.has_dtp = any(t[0] == "P" for t in toks)
         self.dmax = sum(Fr(t[1]) for t in toks if t[0] == "F")
         self.upd_pulls = {}
+        self.series = Log()  # consumer input -> [(t, value)] (harness log, not part of the state)
         self.pinit = {}  # (pcomp, input) -> expected set of the initial pull
         self.end = cfg["end"]
         self.outcome = None
@@ -538,6 +546,8 @@ class Run:
         li = self._link_of(comp.name, iname)
         l = self.links[li]
         self.stats["pulls"] += 1
+        if self.cfg.get("record_series"):
+            self.series.setdefault(comp.name + "." + iname, []).append((float(t), round(got, 9)))
         try:
             exp = self.ref[li].pull(t)
         except R.Refuse as r:
@@ -648,6 +658,31 @@ def explore(cfg, max_states=None):
             break
     res["states"] = len(seen)
     return res
+
+
+def signature(cfg):
+    """fixed-sequence mode: one deterministic execution; returns the outcome signature used by C05"""
+    r = Run(dict(cfg, record_series=True), script=[])
+    out = r.resume()
+    infos = {}
+    for n, c in r.comps.items():
+        for sn, slot in list(c.inputs.items()) + list(c.outputs.items()):
+            try:
+                i = slot.info
+                infos[n + "." + sn] = (repr(i.grid), str(i.units), str(i.time), str(i.mask))
+            except Exception as e:  # noqa
+                infos[n + "." + sn] = "ERR:" + type(e).__name__
+    if out[0] == "done":
+        o = ("done",)
+    elif out[0] == "circular":
+        o = ("FinamCircularCouplingError",)
+    elif out[0] == "exc":
+        o = ("exc", out[1])
+    else:
+        o = (out[0],)
+    times = {n: float(hrs(c._time)) for n, c in r.comps.items() if isinstance(c, VComp)}
+    sig = dict(outcome=o, infos=infos, times=times if o == ("done",) else None, series={k: v for k, v in sorted(r.series.items())} if o == ("done",) else None)
+    return sig, r
 
 
 def run_path(cfg, path):
